@@ -164,7 +164,21 @@ def r4_lookahead_rollback(ctx):
     for b, k, s in tw:
         # the block must lead only to `return true`
         rets = {sh(ne(t.deep_rvalue(st["rv"]))) for x in t.reach([b]) for st in t.blocks[x]["s"] if st["lhs"]["l"] == 0 and not st["lhs"]["p"]}
-        if not rets or not rets <= {"true", "1"}:
+        # a named flag that is returned (`if at_word_end { self.pos = end; } at_word_end`) is `true` on the path through the
+        # write when the write sits on the true side of a test of that same flag
+        known_true = set()
+        for S, al in t.constraints(b):
+            d = t.blocks[S]["t"]["d"]
+            pl = (d.get("copy") or d.get("move")) if isinstance(d, dict) else None
+            if pl is not None and not pl["p"] and 0 not in al and t.locals[pl["l"]]["ty"].strip() == "bool":
+                root = pl["l"]
+                dd = t.whole_defs(root)
+                if len(dd) == 1 and dd[0][1] != "t" and dd[0][2]["rv"]["k"] == "use" and isinstance(dd[0][2]["rv"]["a"], dict) and (dd[0][2]["rv"]["a"].get("copy") or dd[0][2]["rv"]["a"].get("move")):
+                    root = (dd[0][2]["rv"]["a"].get("copy") or dd[0][2]["rv"]["a"].get("move"))["l"]
+                for cand in {pl["l"], root}:
+                    if t.locals[cand]["name"]:
+                        known_true.add(t.locals[cand]["name"])
+        if not rets or not rets <= ({"true", "1"} | known_true):
             ok = False
     if ok:
         ctx.ok("try_consume_word|writes-only-on-success", t.where(), "the cursor is written only on the path that returns true")
@@ -403,6 +417,21 @@ def r10_keyword_words_end_at_identifier_bytes(ctx):
                 classes |= {"alpha", "digit"}
         if si["kind"] == "bin" and si["op"] in ("Eq", "Ne") and 95 in ((si["a"].get("int") if isinstance(si["a"], dict) else None), (si["b"].get("int") if isinstance(si["b"], dict) else None)):
             classes.add("underscore")
+    # the last test of a chain may feed a named flag instead of a branch (`let at_word_end = .. || !(.. || digit)`): the class
+    # tests applied to the byte at `end` count wherever their result goes
+    for c in fn.calls():
+        short = (c.callee or "").split("::")[-1]
+        if short not in ("is_alpha_or_underscore", "is_ascii_alphabetic", "is_ascii_digit", "is_ascii_alphanumeric") or not c.args:
+            continue
+        at = sh(ne(fn.deep(c.args[0], 8))).replace(" ", "")
+        if "end" not in at and "len(word)" not in at:
+            continue
+        if short in ("is_alpha_or_underscore", "is_ascii_alphabetic"):
+            classes |= {"alpha"} | ({"underscore"} if short == "is_alpha_or_underscore" else set())
+        elif short == "is_ascii_digit":
+            classes.add("digit")
+        else:
+            classes |= {"alpha", "digit"}
     missing = {"alpha", "underscore", "digit"} - classes
     if not missing:
         ctx.ok("word-boundary", fn.where(), "the byte after a keyword word is tested against letters, digits and underscore")
